@@ -81,13 +81,14 @@ def customMatches (custom : Option Name) (name : Name) : Bool :=
   | some c => testSuffix c name != 0
   | none => false
 
-/-- `compressed_name()` over an explicit per-format list. `none` = "File already has '…' suffix, skipping" (warning),
+/-- `compressed_name()` over an explicit per-format list `sufs` (= `all_suffixes[format]`) and default suffix `dflt`
+    (= `suffixes[0]`, which is NULL for raw). `none` = "File already has '…' suffix, skipping" (warning),
     or — for a format without default suffix and no custom suffix — the state args.c:862 makes unreachable
     (`--format=raw` without `--suffix` is a fatal usage error unless writing to stdout). -/
-def compressedNameT (sufs : List Name) (custom : Option Name) (name : Name) : Option Name :=
+def compressedNameT (sufs : List Name) (dflt : Option Name) (custom : Option Name) (name : Name) : Option Name :=
   if sufs.any (fun s => testSuffix s name != 0) then none
   else if customMatches custom name then none
-  else match (match custom with | some c => some c | none => sufs.head?) with
+  else match (match custom with | some c => some c | none => dflt) with
     | some s => some (name ++ s)
     | none => none
 
@@ -95,7 +96,7 @@ def uncompressedName (fmt : Format) (custom : Option Name) (name : Name) : Optio
   uncompressedNameT uncompTable fmt custom name
 
 def compressedName (fmt : Format) (custom : Option Name) (name : Name) : Option Name :=
-  compressedNameT (compSuffixes fmt) custom name
+  compressedNameT (compSuffixes fmt) (compSuffixes fmt).head? custom name
 
 /-- `enum operation_mode` (coder.h). Only compress/decompress reach `suffix_get_dest_name`. -/
 inductive OpMode where
